@@ -31,6 +31,11 @@ TEXT = {
   level_text="RequirePublicIP is compared with an independent classification for structured and random addresses (all 2^32 IPv4 addresses in the thorough tier); end to end, generated destination spellings (literals, mapped, empty/IP-literal domains, hostnames with mixed answers) go through the default TCP dialer and the default UDP validator while sinks listen on every local forbidden address class; for UDP the forbidden datagram is placed at a generated position of a live association.",
   level_note="Only observed traffic at a sink is a violation; RFC1918/CGNAT/multicast have no local sink and are judged by status; IPv6 is sampled, not enumerated.",
  ),
+ "C06": dict(
+  technique="property-based testing (rapid) under a fake clock (testing/synctest) with exact deadline equality, plus generated concurrent probe batches over real sockets",
+  level_text="Generated probes (random, truncated, bit-flipped, foreign-key, replayed, reflected, invalid-after-authentication) and client behaviours (hold, FIN at t, trickle) run against the real handler with the production 59 s timeout in fake time: zero bytes written, every byte consumed, return at exactly start+59 s or exactly at the client's FIN, drained-not-closed after authentication; real loopback sockets add close kind (FIN not RST), a sound lower bound on the close time and post-dial corruption.",
+  level_note="Authentication decisions come from an independent codec; fake-time engine uses Go 1.26 timer semantics; real-time upper bounds are generous and must reproduce.",
+ ),
 }
 def _na():
     from checks_table import CHECKS
